@@ -26,6 +26,10 @@ SYSTEMS = {
     "inconsistent": {"fam": "lin_tall_inc", "x0": [0.1, 0.1], "nsm": 3, "tol": 1e-9},
     "quad_limits_w": {"fam": "sepquad", "x0": [0.6, -0.3], "nsm": 4, "tol": 1e-6, "limits": [(-0.5, 1.2), (-1.0, 0.4)],
                       "kw": (2.0, 0.5), "tw": (3.0, 0.25)},
+    # weights far below 1 with loose tolerances: "within tolerance" read on weighted residuals differs from the stated reading
+    "cubic_w": {"fam": "cubic", "x0": [0.1], "nsm": 2, "tol": 0.05, "tw": (1e-3,)},
+    "atan_w": {"fam": "atan", "x0": [2.0], "nsm": 2, "tol": 0.01, "tw": (1e-3,)},
+    "cliff_w": {"fam": "cliff", "x0": [0.0], "nsm": 4, "tol": [0.02, 0.019], "tw": (1e-3, 1.0)},
     "bump": {"fam": "bump", "x0": [0.5, 0.5], "nsm": 4, "tol": 1e-9},
     "trig_ms": {"fam": "trig", "x0": [2.0, 1.5], "nsm": 4, "tol": 1e-9, "max_step": [0.5, None]},
 }
@@ -216,7 +220,7 @@ class System(simple.SimpleSystem):
 def plan(tier, seed):
     jobs = []
     depth = 4 if tier == "quick" else 5
-    names = ["cubic", "atan", "coupled", "inconsistent", "quad_limits_w"] if tier == "quick" else list(SYSTEMS)
+    names = ["cubic", "atan", "coupled", "inconsistent", "quad_limits_w", "cubic_w", "atan_w", "cliff_w"] if tier == "quick" else list(SYSTEMS)
     for nm in names:
         jobs.append({"name": f"bfs:{nm}:d{depth}", "mode": "pure", "hashseed": seed % 2 ** 32, "nproc": 3 if tier == "quick" else 16,
                      "timeout": 3400, "args": {"system": nm, "depth": depth, "time_cap": 2700}})
